@@ -209,8 +209,16 @@ def cases_AD(tier):
     def g():
         for rel in GL.shipped():
             n = _nfull(rel)
-            for ch in _time_chunks(n, 3 if tier == 'quick' else 2):
+            chunks = _time_chunks(n, 3 if tier == 'quick' else 2)
+            for ch in chunks:
                 yield {'o': 'A', 'file': rel, 'idx': ch}
+            # the same result times reached another way than by their non-negative index
+            for k, ch in enumerate(chunks):
+                via = 'negative' if ch[-1] == n - 1 else ['negative', 'time', 'step'][k % 3]
+                yield {'o': 'A', 'file': rel, 'idx': ch, 'via': via}
+                if ch[-1] == n - 1 and n > 1:
+                    yield {'o': 'A', 'file': rel, 'idx': [0, n - 1], 'via': 'last'}
+                    yield {'o': 'A', 'file': rel, 'idx': [0, n - 1], 'via': 'time'}
     return g
 
 
@@ -334,11 +342,21 @@ def run_A(case, R):
         R.check(lst.num_fulltimes == len(F.full), 'A:%s:times' % fam(rel),
                 '%s: reader finds %d result times, the file has %d banners' % (rel, lst.num_fulltimes, len(F.full)))
         if lst.num_fulltimes != len(F.full): return
+        via = case.get('via', 'index')
+        R.label('via:' + via)
+        n = len(F.full)
         for bi in case['idx']:
-            with R.lib('index'):
-                lst.index = bi
-            exp = expected_tables(F, bi)
             b = F.full[bi]
+            with R.lib('index'):
+                if via == 'negative': lst.index = bi - n
+                elif via == 'last' and bi == n - 1: lst.last()
+                elif via == 'time' and [x.time for x in F.full].count(b.time) == 1:
+                    lst.time = b.time * (1.0 + 1e-9) + (1e30 if bi == n - 1 else 0.0)      # nearest; beyond the end for the last one
+                elif via == 'step' and [x.step for x in F.full].count(b.step) == 1: lst.step = b.step
+                else: lst.index = bi
+            if not R.check(lst.index == bi, 'A:%s:index-reached' % fam(rel), '%s: asked for result %d via %s, reader is at index %r' % (
+                    rel, bi, via, lst.index)): return
+            exp = expected_tables(F, bi)
             R.check(lst.time == b.time and lst.step == b.step, 'A:%s:time-step' % fam(rel),
                     '%s index %d: reader time %r step %r, banner %r %r' % (rel, bi, lst.time, lst.step, b.time, b.step))
             for t in b.tables:
